@@ -1,4 +1,5 @@
 import SwcVerif.Props.C02
+import SwcVerif.Props.C02Gen
 #print axioms C02.exit_flag_pinned
 #print axioms C02.consts_pinned
 #print axioms C02.read_ok_iff
@@ -13,3 +14,14 @@ import SwcVerif.Props.C02
 #print axioms C02.trailing_fields_only_warn
 #print axioms C02.exponent_is_trailing_char
 #print axioms C02.glued_suffix_not_a_tail
+#print axioms RefineParse.parse_refines
+#print axioms RefineParse.loop_valid
+#print axioms RefineParse.loop_invalid
+#print axioms RefineParse.columns
+#print axioms C02.generated_parse_eq_spec
+#print axioms C02.generated_read_ok_iff
+#print axioms C02.generated_columns
+#print axioms C02.generated_never_partial
+#print axioms C02.generated_decode_fails_loudly
+#print axioms C02.generated_warning_iff
+#print axioms C02.generated_exit_propagates
